@@ -111,29 +111,37 @@ theorem pinv_onAttach {c : Nat} {s : RSt} {p : Phase} {att : Bool} (x : Consumer
     subst hp
     unfold onAttach
     split
-    · refine ⟨.fresh, by simp [accepts], Or.inr (Or.inl ⟨by simp [hc], { x with late := false }, ?_, ?_, ?_, rfl⟩)⟩ <;>
+    · refine ⟨.fresh, by simp [accepts], Or.inr (Or.inl ⟨by simp [hc], x, ?_, ?_, ?_, rfl⟩)⟩ <;>
         simp [sel_append, h1, h2, h3, sel_one_eq, hc]
-    · by_cases hx : s.alive x
-      · refine ⟨.linked, by simp [hx, logOf_single, hc, accepts, Phase.next],
-          Or.inr (Or.inr (Or.inl ⟨by simp [hc], { x with late := true }, ?_, ?_, ?_, rfl⟩))⟩ <;>
-          simp [hx, sel_append, h1, h2, h3, sel_one_eq, hc]
-      · refine ⟨.fresh, by simp [hx, accepts], Or.inl ?_⟩
-        simp [hx, h1, h2, h3, hc]
-  · have hsel : ∀ l : Bool, sel c [{ x with late := l }] = [] := by intro l; exact sel_one_ne (by simpa using hc)
-    refine ⟨p, ?_, ?_⟩
-    · unfold onAttach
-      split
-      · simp [accepts]
-      · by_cases hx : s.alive x <;> simp [hx, logOf_single, hc, accepts]
-    · have hb : (att || (x.id == c)) = att := by simp [hc]
-      rw [hb]
-      unfold onAttach
-      split
-      · simpa [PInv, sel_append, hsel] using h
-      · by_cases hx : s.alive x
-        · simpa [PInv, hx, sel_append, hsel] using h
-        · simpa [PInv, hx] using h
-
+    · by_cases hx : s.alive x = true
+      · rw [if_pos hx]
+        by_cases hs : x.sync = true
+        · rw [if_pos hs]
+          refine ⟨.linked, by simp [logOf_single, hc, accepts, Phase.next],
+            Or.inr (Or.inr (Or.inl ⟨by simp [hc], x, ?_, ?_, ?_, rfl⟩))⟩ <;>
+            simp [sel_append, h1, h2, h3, sel_one_eq, hc]
+        · rw [if_neg hs]
+          refine ⟨.linked, by simp [logOf_single, hc, accepts, Phase.next],
+            Or.inr (Or.inr (Or.inr ⟨by simp [hc], x, ?_, ?_, ?_, Or.inl rfl⟩))⟩ <;>
+            simp [sel_append, h1, h2, h3, sel_one_eq, hc]
+      · rw [if_neg hx]
+        refine ⟨.fresh, by simp [accepts], Or.inl ?_⟩
+        simp [h1, h2, h3, hc]
+  · have hsel : sel c [x] = [] := sel_one_ne hc
+    have hb : (att || (x.id == c)) = att := by simp [hc]
+    rw [hb]
+    unfold onAttach
+    split
+    · exact ⟨p, by simp [accepts], by simpa [PInv, sel_append, hsel] using h⟩
+    · by_cases hx : s.alive x = true
+      · rw [if_pos hx]
+        by_cases hs : x.sync = true
+        · rw [if_pos hs]
+          exact ⟨p, by simp [logOf_single, hc, accepts], by simpa [PInv, sel_append, hsel] using h⟩
+        · rw [if_neg hs]
+          exact ⟨p, by simp [logOf_single, hc, accepts], by simpa [PInv, sel_append, hsel] using h⟩
+      · rw [if_neg hx]
+        exact ⟨p, by simp [accepts], h⟩
 
 theorem pinv_onLinked {c : Nat} {s : RSt} {p : Phase} {att : Bool} (h : PInv c s p att) :
     ∃ p', accepts p (logOf c (onLinked s).2) = some p' ∧ PInv c (onLinked s).1 p' att := by
@@ -269,7 +277,7 @@ theorem pinv_step {c : Nat} {s : RSt} {p : Phase} {att : Bool} (ev : REv) (h : P
         simp only [onMsg]
         split
         · exact pinv_unlinkAll (pinv_fields h rfl rfl rfl)
-        · exact pinv_dispatch (pinv_fields h rfl rfl rfl)
+        · exact ⟨p, by simp [accepts], pinv_fields h rfl rfl rfl⟩
 
 theorem pinv_run (c : Nat) : ∀ (evs : List REv) (s : RSt) (p : Phase) (att : Bool), PInv c s p att →
     (att = true → c ∉ attachIds evs) → (attachIds evs).Nodup →
@@ -315,11 +323,11 @@ theorem pinv_init (c : Nat) (sg ab : Bool) : PInv c (rinit sg ab) .fresh false :
 
 /-! ### The "no consumers" timer is armed only when nobody is registered or awaiting sync -/
 
-def TInv (s : RSt) : Prop := s.timer = true → s.reg = [] ∧ s.aSynced = []
+def TInv (s : RSt) : Prop := s.timer = true → s.reg = [] ∧ s.aSynced = [] ∧ s.aLinked = []
 
-theorem tinv_init (sg ab : Bool) : TInv (rinit sg ab) := fun _ => ⟨rfl, rfl⟩
+theorem tinv_init (sg ab : Bool) : TInv (rinit sg ab) := fun _ => ⟨rfl, rfl, rfl⟩
 
-theorem tinv_unlinkAll (s : RSt) : TInv (unlinkAll s).1 := fun _ => ⟨rfl, rfl⟩
+theorem tinv_unlinkAll (s : RSt) : TInv (unlinkAll s).1 := fun _ => ⟨rfl, rfl, rfl⟩
 
 theorem tinv_dispatch {s : RSt} (h : TInv s) : TInv (dispatch s).1 := by
   unfold dispatch
@@ -327,7 +335,7 @@ theorem tinv_dispatch {s : RSt} (h : TInv s) : TInv (dispatch s).1 := by
   · simpa [ht] using h
   · intro h2
     simp only [ht, Bool.false_eq_true, ↓reduceIte, Bool.and_eq_true, List.isEmpty_iff] at h2 ⊢
-    exact h2
+    exact ⟨h2.1.1, h2.1.2, h2.2⟩
 
 theorem tinv_step {s : RSt} (ev : REv) (h : TInv s) : TInv (rstep s ev).1 := by
   cases ev with
@@ -339,9 +347,12 @@ theorem tinv_step {s : RSt} (ev : REv) (h : TInv s) : TInv (rstep s ev).1 := by
       unfold onAttach
       split
       · intro h2; simp at h2
-      · by_cases hx : s.alive x
-        · intro h2; simp [hx] at h2
-        · simpa [hx] using h
+      · by_cases hx : s.alive x = true
+        · rw [if_pos hx]
+          by_cases hsy : x.sync = true
+          · rw [if_pos hsy]; intro h2; simp at h2
+          · rw [if_neg hsy]; intro h2; simp at h2
+        · rw [if_neg hx]; exact h
   | stop =>
     by_cases hs : s.stopped
     · simpa [rstep, hs] using h
@@ -357,21 +368,21 @@ theorem tinv_step {s : RSt} (ev : REv) (h : TInv s) : TInv (rstep s ev).1 := by
         · simpa [ht, TInv] using h
         · intro h2
           simp only [ht, Bool.false_eq_true, ↓reduceIte, Bool.and_eq_true, List.isEmpty_iff] at h2 ⊢
-          exact ⟨h2.2, h2.1⟩
+          first | exact ⟨h2.2, h2.1, rfl⟩ | exact ⟨h2.2, h2.1, trivial⟩ | exact ⟨h2.2, h2.1⟩
       | synced =>
         simp only [onMsg]; unfold onSynced
         by_cases ht : s.timer
         · simpa [ht, TInv] using h
         · intro h2
-          simp only [ht, Bool.false_eq_true, ↓reduceIte, List.isEmpty_iff] at h2 ⊢
-          first | exact ⟨h2, rfl⟩ | exact ⟨h2, trivial⟩ | exact h2
+          simp only [ht, Bool.false_eq_true, ↓reduceIte, Bool.and_eq_true, List.isEmpty_iff] at h2 ⊢
+          first | exact ⟨h2.1, rfl, h2.2⟩ | exact ⟨h2.1, trivial, h2.2⟩ | exact ⟨h2.1, h2.2⟩
       | unlinked => exact tinv_unlinkAll s
       | event b => exact tinv_dispatch (by simpa [TInv] using h)
       | badEvent =>
         simp only [onMsg]
         split
         · exact tinv_unlinkAll _
-        · exact tinv_dispatch (by simpa [TInv] using h)
+        · simpa [TInv] using h
 
 theorem tinv_run {s : RSt} (evs : List REv) (h : TInv s) : TInv (rrun s evs).1 := by
   induction evs generalizing s with
@@ -388,7 +399,7 @@ def RegAt (c : Nat) (s : RSt) (x : Consumer) : Prop :=
 def expectedTail (abort : Bool) : List REv → List Note
   | [] => []
   | .msg (.event b) :: r => .event b :: expectedTail abort r
-  | .msg .badEvent :: r => if abort then [.unlinked, .eof] else .event (.raw []) :: expectedTail abort r
+  | .msg .badEvent :: r => if abort then [.unlinked, .eof] else expectedTail abort r
   | .msg .unlinked :: _ => [.unlinked, .eof]
   | .stop :: _ => [.unlinked, .eof]
   | _ :: r => expectedTail abort r
@@ -409,7 +420,9 @@ theorem abort_step (s : RSt) (e : REv) : (rstep s e).1.abort = s.abort := by
     · rfl
     · unfold onAttach; split
       · rfl
-      · split <;> rfl
+      · split
+        · split <;> rfl
+        · rfl
   | stop => simp only [rstep]; split <;> rfl
   | msg m =>
     simp only [rstep]; split
@@ -419,9 +432,7 @@ theorem abort_step (s : RSt) (e : REv) : (rstep s e).1.abort = s.abort := by
       | synced => simp only [onMsg]; unfold onSynced; split <;> rfl
       | unlinked => rfl
       | event b => simp only [onMsg]; unfold dispatch; split <;> rfl
-      | badEvent => simp only [onMsg]; split
-                    · rfl
-                    · unfold dispatch; split <;> rfl
+      | badEvent => simp only [onMsg]; split <;> rfl
 
 theorem regAt_id {c : Nat} {s : RSt} {x : Consumer} (h : RegAt c s x) : x.id = c := by
   have : x ∈ sel c s.reg := by rw [h.2.2]; simp
@@ -483,8 +494,13 @@ theorem registered_tail {c : Nat} (evs : List REv) : ∀ (s : RSt) (x : Consumer
           simp [RegAt, sel_append, hr.1, hr.2.1, hr.2.2, sel_one_ne, hy]
         · by_cases hyx : s.alive y = true
           · rw [if_pos hyx]
-            refine ⟨by simp [logOf_single, hy], ?_, hs, hx⟩
-            simp [RegAt, sel_append, hr.1, hr.2.1, hr.2.2, sel_one_ne, hy]
+            by_cases hys : y.sync = true
+            · rw [if_pos hys]
+              refine ⟨by simp [logOf_single, hy], ?_, hs, hx⟩
+              simp [RegAt, sel_append, hr.1, hr.2.1, hr.2.2, sel_one_ne, hy]
+            · rw [if_neg hys]
+              refine ⟨by simp [logOf_single, hy], ?_, hs, hx⟩
+              simp [RegAt, sel_append, hr.1, hr.2.1, hr.2.2, sel_one_ne, hy]
           · rw [if_neg hyx]
             exact ⟨rfl, hr, hs, hx⟩
       rw [key.1, List.nil_append, ih _ x ht' key.2.2.1 key.2.1 key.2.2.2 hnd' hna', hab]
@@ -533,17 +549,14 @@ theorem registered_tail {c : Nat} (evs : List REv) : ∀ (s : RSt) (x : Consumer
           rw [this.1, rrun_stopped c es this.2]; rfl
         · rw [if_neg hA] at ht' hab ⊢
           rw [if_neg hA]
-          have key := dispatch_reg (s := { s with syncEvent := true, current := .raw [] }) (c := c) (x := x)
-            (by simpa [RegAt] using hr) (by simpa [RSt.alive] using hx) htm
-          rw [key.1, ih _ x ht' (by rw [key.2.2.1]; exact hs) key.2.1
-            (by simp only [RSt.alive, key.2.2.2]; simpa [RSt.alive] using hx) hnd' hna', hab]
-          rfl
-
+          have := ih { s with syncEvent := true, current := .raw [] } x ht' hs (by simpa [RegAt] using hr)
+            (by simpa [RSt.alive] using hx) hnd' hna'
+          simpa using this
 
 /-! ### Who is sent `synced` -/
 
-/-- Everybody awaiting `synced` asked for it, or attached after the link was already up. -/
-def AInv (s : RSt) : Prop := ∀ x ∈ s.aSynced, x.sync = true ∨ x.late = true
+/-- Everybody awaiting `synced` asked for it. -/
+def AInv (s : RSt) : Prop := ∀ x ∈ s.aSynced, x.sync = true
 
 theorem ainv_init (sg ab : Bool) : AInv (rinit sg ab) := by intro x hx; simp [rinit] at hx
 
@@ -557,11 +570,14 @@ theorem ainv_step {s : RSt} (ev : REv) (h : AInv s) : AInv (rstep s ev).1 := by
     · unfold onAttach; split
       · exact hsub _ (fun x hx => hx)
       · split
-        · intro x hx
-          simp only [List.mem_append, List.mem_singleton] at hx
-          rcases hx with hx | hx
-          · exact h x hx
-          · right; rw [hx]
+        · split
+          · rename_i hys
+            intro x hx
+            simp only [List.mem_append, List.mem_singleton] at hx
+            rcases hx with hx | hx
+            · exact h x hx
+            · rw [hx]; exact hys
+          · exact hsub _ (fun x hx => hx)
         · exact h
   | stop =>
     simp only [rstep]; split
@@ -578,7 +594,7 @@ theorem ainv_step {s : RSt} (ev : REv) (h : AInv s) : AInv (rstep s ev).1 := by
           simp only [List.mem_append, List.mem_filter] at hx
           rcases hx with hx | hx
           · exact h x hx
-          · left; exact hx.2
+          · exact hx.2
       | synced =>
         simp only [onMsg]; unfold onSynced; split
         · exact hsub _ (fun x hx => hx)
@@ -595,13 +611,7 @@ theorem ainv_step {s : RSt} (ev : REv) (h : AInv s) : AInv (rstep s ev).1 := by
       | badEvent =>
         simp only [onMsg]; split
         · intro x hx; simp [unlinkAll] at hx
-        · unfold dispatch; split
-          · exact hsub _ (fun x hx => hx)
-          · refine hsub _ (fun x hx => ?_)
-            simp only at hx
-            split at hx
-            · exact hx
-            · exact (List.mem_filter.mp hx).1
+        · exact hsub _ (fun x hx => hx)
 
 theorem ainv_run {s : RSt} (evs : List REv) (h : AInv s) : AInv (rrun s evs).1 := by
   induction evs generalizing s with
@@ -624,7 +634,9 @@ theorem synced_source {s : RSt} (ev : REv) {i : Nat} (h : (i, Note.synced) ∈ (
     · simp at h
     · unfold onAttach at h; split at h
       · simp at h
-      · split at h <;> simp at h
+      · split at h
+        · split at h <;> simp at h
+        · simp at h
   | stop =>
     simp only [rstep] at h; split at h
     · simp at h
@@ -656,14 +668,7 @@ theorem synced_source {s : RSt} (ev : REv) {i : Nat} (h : (i, Note.synced) ∈ (
       | badEvent =>
         simp only [onMsg] at h; split at h
         · have := (mem_notesTo (by simpa [unlinkAll] using h)).2; simp at this
-        · unfold dispatch at h; split at h
-          · simp at h
-          · simp only [List.mem_append] at h
-            rcases h with h | h
-            · have := (mem_notesTo h).2; simp at this
-            · split at h
-              · simp at h
-              · have := (mem_notesTo h).2; simp at this
+        · simp at h
 
 theorem synced_only_to_awaiting {s : RSt} (ev : REv) {i : Nat} (h : (i, Note.synced) ∈ (rstep s ev).2) :
     ∃ x ∈ s.aSynced, x.id = i := by
@@ -720,7 +725,9 @@ theorem current_step (s : RSt) (e : REv) (h : (rstep s e).1.stopped = false) :
       simp only [hs, Bool.false_eq_true, ↓reduceIte]
       unfold onAttach; split
       · simp [lastBody, anyEvent, hs]
-      · split <;> simp [lastBody, anyEvent, hs]
+      · split
+        · split <;> simp [lastBody, anyEvent, hs]
+        · simp [lastBody, anyEvent, hs]
   | stop =>
     simp only [rstep] at h ⊢; split at h
     · simp_all
@@ -741,7 +748,7 @@ theorem current_step (s : RSt) (e : REv) (h : (rstep s e).1.stopped = false) :
         · simp [unlinkAll] at h
         · rename_i ha
           simp only [ha, Bool.false_eq_true, ↓reduceIte]
-          unfold dispatch; split <;> simp [lastBody, anyEvent, hs']
+          simp [lastBody, anyEvent, hs']
 
 theorem lastBody_cons (e : REv) (es : List REv) (b : Body) : lastBody (e :: es) b = lastBody es (lastBody [e] b) := by
   cases e with
@@ -791,8 +798,10 @@ theorem linked_source {s : RSt} (ev : REv) {i : Nat} (h : (i, Note.linked) ∈ (
       · simp at h
       · rename_i hdl
         split at h
-        · simp only [List.mem_singleton, Prod.mk.injEq] at h
-          exact Or.inr ⟨y, rfl, h.1.symm, by intro hh; exact hdl hh⟩
+        · have h' : (i, Note.linked) = (y.id, Note.linked) := by
+            split at h <;> simpa using h
+          simp only [Prod.mk.injEq] at h'
+          exact Or.inr ⟨y, rfl, h'.1.symm, by intro hh; exact hdl hh⟩
         · simp at h
   | stop =>
     simp only [rstep] at h; split at h
@@ -828,14 +837,7 @@ theorem linked_source {s : RSt} (ev : REv) {i : Nat} (h : (i, Note.linked) ∈ (
       | badEvent =>
         simp only [onMsg] at h; split at h
         · have := (mem_notesTo (by simpa [unlinkAll] using h)).2; simp at this
-        · unfold dispatch at h; split at h
-          · simp at h
-          · simp only [List.mem_append] at h
-            rcases h with h | h
-            · have := (mem_notesTo h).2; simp at this
-            · split at h
-              · simp at h
-              · have := (mem_notesTo h).2; simp at this
+        · simp at h
 
 /-- A consumer that did not ask for SYNC and is sent `linked` by the `Linked` handler is registered afterwards. -/
 theorem linked_registers_nosync {c : Nat} {s : RSt} {p : Phase} {att : Bool} (h : PInv c s p att)
@@ -855,6 +857,226 @@ theorem linked_registers_nosync {c : Nat} {s : RSt} {p : Phase} {att : Bool} (h 
     · simp [rstep, hst, onMsg, onLinked, htm]
   · cases hy
 
+/-! ### A consumer whose channel works is never dropped while the task runs -/
+
+def RSt.members (s : RSt) : List Consumer := s.aLinked ++ s.aSynced ++ s.reg
+
+theorem mem_members {s : RSt} {y : Consumer} :
+    y ∈ s.members ↔ y ∈ s.aLinked ∨ y ∈ s.aSynced ∨ y ∈ s.reg := by
+  simp [RSt.members, List.mem_append, or_assoc]
+
+theorem onAttach_dead (s : RSt) (x : Consumer) : (onAttach s x).1.dead = s.dead := by
+  unfold onAttach; split
+  · rfl
+  · split
+    · split <;> rfl
+    · rfl
+
+theorem onAttach_members_mono (s : RSt) (x : Consumer) {y : Consumer} (h : y ∈ s.members) :
+    y ∈ (onAttach s x).1.members := by
+  rw [mem_members] at h
+  unfold onAttach; split
+  · rw [mem_members]; rcases h with h | h | h <;> simp [h]
+  · split
+    · split <;> (rw [mem_members]; rcases h with h | h | h <;> simp [h])
+    · rw [mem_members]; exact h
+
+theorem onAttach_self (s : RSt) (x : Consumer) (h : s.alive x = true) : x ∈ (onAttach s x).1.members := by
+  unfold onAttach; split
+  · rw [mem_members]; simp
+  · rw [if_pos h]; split <;> (rw [mem_members]; simp)
+
+/-- One loop event keeps every live member (unless the task stops); an attaching live consumer becomes one. -/
+theorem members_step {s : RSt} (e : REv) {y : Consumer} (hrun : (rstep s e).1.stopped = false)
+    (halive : (rstep s e).1.alive y = true) (hy : y ∈ s.members ∨ e = .attach y) : y ∈ (rstep s e).1.members := by
+  have hst : s.stopped = false := by
+    cases hb : s.stopped with
+    | false => rfl
+    | true => have : (rstep s e).1.stopped = true := by cases e <;> simp [rstep, hb]
+              rw [this] at hrun; exact absurd hrun (by simp)
+  cases e with
+  | dropReader d =>
+    rcases hy with hy | hy
+    · simpa [rstep, RSt.members] using hy
+    · cases hy
+  | attach x =>
+    simp only [rstep, hst, Bool.false_eq_true, ↓reduceIte] at hrun halive ⊢
+    have hal : s.alive y = true := by simpa [RSt.alive, onAttach_dead] using halive
+    rcases hy with hy | hy
+    · exact onAttach_members_mono s x hy
+    · cases hy; exact onAttach_self s y hal
+  | stop => simp [rstep, hst, unlinkAll] at hrun
+  | msg m =>
+    have hy' : y ∈ s.members := by
+      rcases hy with hy | hy
+      · exact hy
+      · cases hy
+    rw [mem_members] at hy'
+    simp only [rstep, hst, Bool.false_eq_true, ↓reduceIte] at hrun halive ⊢
+    cases m with
+    | unlinked => simp [onMsg, unlinkAll] at hrun
+    | linked =>
+      simp only [onMsg] at halive ⊢
+      unfold onLinked at halive ⊢
+      by_cases ht : s.timer = true
+      · simp only [ht, ↓reduceIte] at halive ⊢; rw [mem_members]; exact hy'
+      · simp only [ht, Bool.false_eq_true, ↓reduceIte] at halive ⊢
+        have hal : s.alive y = true := by simpa [RSt.alive] using halive
+        rw [mem_members]
+        simp only [List.mem_append, List.mem_filter, List.not_mem_nil, false_or]
+        rcases hy' with h | h | h
+        · by_cases hs : y.sync = true
+          · left; right; exact ⟨⟨h, hal⟩, hs⟩
+          · right; right; exact ⟨⟨h, hal⟩, by simpa using hs⟩
+        · left; left; exact h
+        · right; left; exact h
+    | synced =>
+      simp only [onMsg] at halive ⊢
+      unfold onSynced at halive ⊢
+      by_cases ht : s.timer = true
+      · simp only [ht, ↓reduceIte] at halive ⊢; rw [mem_members]; exact hy'
+      · simp only [ht, Bool.false_eq_true, ↓reduceIte] at halive ⊢
+        have hal : s.alive y = true := by simpa [RSt.alive] using halive
+        rw [mem_members]
+        simp only [List.mem_append, List.mem_filter, List.not_mem_nil, false_or]
+        rcases hy' with h | h | h
+        · left; exact h
+        · right; right; exact ⟨h, hal⟩
+        · right; left; exact h
+    | event b =>
+      simp only [onMsg] at halive ⊢
+      unfold dispatch at halive ⊢
+      by_cases ht : s.timer = true
+      · simp only [ht, ↓reduceIte] at halive ⊢; rw [mem_members]; exact hy'
+      · simp only [ht, Bool.false_eq_true, ↓reduceIte] at halive ⊢
+        have hal : s.alive y = true := by simpa [RSt.alive] using halive
+        rw [mem_members]
+        simp only [List.mem_filter]
+        rcases hy' with h | h | h
+        · left; exact h
+        · right; left
+          by_cases hsg : s.single = true
+          · simp only [hsg, ↓reduceIte]; exact h
+          · simp only [hsg, Bool.false_eq_true, ↓reduceIte, List.mem_filter]; exact ⟨h, by simpa [RSt.alive] using hal⟩
+        · right; right; exact ⟨h, by simpa [RSt.alive] using hal⟩
+    | badEvent =>
+      simp only [onMsg] at hrun halive ⊢
+      by_cases ha : s.abort = true
+      · simp [ha, unlinkAll] at hrun
+      · simp only [ha, Bool.false_eq_true, ↓reduceIte] at halive ⊢
+        rw [mem_members]; exact hy'
+
+theorem dead_step (s : RSt) (e : REv) (d : Nat) (h : d ∈ (rstep s e).1.dead) : d ∈ s.dead ∨ e = .dropReader d := by
+  cases e with
+  | dropReader d' =>
+    simp only [rstep, List.mem_cons] at h
+    rcases h with h | h
+    · right; rw [h]
+    · left; exact h
+  | attach x =>
+    left
+    simp only [rstep] at h; split at h
+    · exact h
+    · unfold onAttach at h; split at h
+      · exact h
+      · split at h
+        · split at h <;> exact h
+        · exact h
+  | stop => left; simp only [rstep] at h; split at h <;> exact h
+  | msg m =>
+    left
+    simp only [rstep] at h; split at h
+    · exact h
+    · cases m with
+      | linked => simp only [onMsg] at h; unfold onLinked at h; split at h <;> exact h
+      | synced => simp only [onMsg] at h; unfold onSynced at h; split at h <;> exact h
+      | unlinked => exact h
+      | event b => simp only [onMsg] at h; unfold dispatch at h; split at h <;> exact h
+      | badEvent => simp only [onMsg] at h; split at h <;> exact h
+
+theorem dead_mono (s : RSt) (e : REv) (d : Nat) (h : d ∈ s.dead) : d ∈ (rstep s e).1.dead := by
+  cases e with
+  | dropReader d' => simp [rstep, h]
+  | attach x =>
+    simp only [rstep]; split
+    · exact h
+    · unfold onAttach; split
+      · exact h
+      · split
+        · split <;> exact h
+        · exact h
+  | stop => simp only [rstep]; split <;> exact h
+  | msg m =>
+    simp only [rstep]; split
+    · exact h
+    · cases m with
+      | linked => simp only [onMsg]; unfold onLinked; split <;> exact h
+      | synced => simp only [onMsg]; unfold onSynced; split <;> exact h
+      | unlinked => exact h
+      | event b => simp only [onMsg]; unfold dispatch; split <;> exact h
+      | badEvent => simp only [onMsg]; split <;> exact h
+
+theorem dead_mono_run (evs : List REv) : ∀ (s : RSt) (d : Nat), d ∈ s.dead → d ∈ (rrun s evs).1.dead := by
+  induction evs with
+  | nil => intro s d h; exact h
+  | cons e es ih => intro s d h; exact ih _ d (dead_mono s e d h)
+
+theorem dead_run (evs : List REv) : ∀ (s : RSt) (d : Nat), d ∈ (rrun s evs).1.dead →
+    d ∈ s.dead ∨ REv.dropReader d ∈ evs := by
+  induction evs with
+  | nil => intro s d h; exact Or.inl h
+  | cons e es ih =>
+    intro s d h
+    rcases ih _ d h with h1 | h1
+    · rcases dead_step s e d h1 with h2 | h2
+      · exact Or.inl h2
+      · right; rw [h2]; simp
+    · right; exact List.mem_cons_of_mem _ h1
+
+/-- A consumer that attached, kept its reader and is looking at a running task is still a member. -/
+theorem members_run (y : Consumer) (evs : List REv) : ∀ (s : RSt), (y ∈ s.members ∨ REv.attach y ∈ evs) →
+    (rrun s evs).1.stopped = false → (rrun s evs).1.alive y = true → y ∈ (rrun s evs).1.members := by
+  induction evs with
+  | nil =>
+    intro s h _ _
+    rcases h with h | h
+    · exact h
+    · simp at h
+  | cons e es ih =>
+    intro s h hrun hal
+    simp only [rrun] at hrun hal ⊢
+    have hrun1 : (rstep s e).1.stopped = false := by
+      cases hb : (rstep s e).1.stopped with
+      | false => rfl
+      | true => rw [stopped_run es hb] at hrun; exact absurd hrun (by simp)
+    have hal1 : (rstep s e).1.alive y = true := by
+      cases hb : (rstep s e).1.alive y with
+      | true => rfl
+      | false =>
+        have hd : y.id ∈ (rstep s e).1.dead := by simpa [RSt.alive] using hb
+        have := dead_mono_run es _ _ hd
+        simp [RSt.alive, this] at hal
+    apply ih _ _ hrun hal
+    rcases h with h | h
+    · exact Or.inl (members_step e hrun1 hal1 (Or.inl h))
+    · rcases List.mem_cons.mp h with h | h
+      · exact Or.inl (members_step e hrun1 hal1 (Or.inr h.symm))
+      · exact Or.inr h
+
+theorem accepts_fresh_nil {p : Phase} {l : List Note} (h : accepts p l = some .fresh) : l = [] := by
+  induction l generalizing p with
+  | nil => rfl
+  | cons n ns ih =>
+    simp only [accepts] at h
+    split at h
+    · rename_i q hq
+      have := ih h
+      subst this
+      simp only [accepts, Option.some.injEq] at h
+      subst h
+      cases p <;> cases n <;> simp [Phase.next] at hq
+    · cases h
+
 theorem abort_run (s : RSt) (evs : List REv) : (rrun s evs).1.abort = s.abort := by
   induction evs generalizing s with
   | nil => rfl
@@ -868,7 +1090,9 @@ theorem single_step (s : RSt) (e : REv) : (rstep s e).1.single = s.single := by
     · rfl
     · unfold onAttach; split
       · rfl
-      · split <;> rfl
+      · split
+        · split <;> rfl
+        · rfl
   | stop => simp only [rstep]; split <;> rfl
   | msg m =>
     simp only [rstep]; split
@@ -878,9 +1102,7 @@ theorem single_step (s : RSt) (e : REv) : (rstep s e).1.single = s.single := by
       | synced => simp only [onMsg]; unfold onSynced; split <;> rfl
       | unlinked => rfl
       | event b => simp only [onMsg]; unfold dispatch; split <;> rfl
-      | badEvent => simp only [onMsg]; split
-                    · rfl
-                    · unfold dispatch; split <;> rfl
+      | badEvent => simp only [onMsg]; split <;> rfl
 
 theorem single_run (s : RSt) (evs : List REv) : (rrun s evs).1.single = s.single := by
   induction evs generalizing s with
